@@ -84,6 +84,8 @@ func runTimeoutCase(c TimeoutCase, seed int64) TimeoutEv {
 	text := timeoutText(c, r)
 	ev := TimeoutEv{Ev: "Timeout", Case: c.ID, Shape: c.Shape, Text: text, Proto: c.Proto}
 	rc := RpcCase{ID: c.ID, Proto: c.Proto, Codec: "proto", Shape: "unary", Sizes: []int{1}, Script: []Step{{Op: "ret"}}, Timeout: text}
+	// the deadline does not depend on the mux options: two cases in three run with a stats handler and / or interceptors
+	rc.Opts = [][]string{nil, {"stats"}, {"stats", "unaryInt", "streamInt"}}[c.ID%3]
 	t0 := time.Now()
 	re := runRpcCase(rc)
 	_ = t0
